@@ -88,6 +88,7 @@ type Stats struct {
 	PermNontrivial      int64 // ... with >= 2 keys
 	PermNonIdentity     int64 // ... iterated in a non-canonical order
 	PermBig             int64 // ... with >= 9 keys (several buckets in a Go map)
+	PermUncontrolled    int64 // visits of maps with interface keys whose dynamic types have no canonical order (Go's own order used)
 	PermMaxKeys         int64
 	PermHash            uint64 // FNV-1a over (site, applied order) of all visits
 	ClockReads          int64
